@@ -115,6 +115,7 @@ def tasks(tier, seed):
     n = len(values(th))
     nch = 32
     out = [('cmp', c, nch, th) for c in range(nch)]
+    out += [('cmplow', pp) for pp in (5, 10, 30, 52, 64)]
     out.append(('hash', th))
     out.append(('chash', th))
     return out
@@ -151,6 +152,55 @@ def t_cmp(task):
                 if cn != 'mpf-mpf' or s[2] != t[2]:
                     acc.nontrivial += 6
     acc.sample(['cmp', 'mpf-float', 'lt', V[3], V[-7]])
+    return acc
+
+
+def t_cmplow(task):
+    """comparisons at a LOW working precision with Python floats / ints that need more bits than the precision: operands are compared exactly,
+    never after rounding to the working precision"""
+    _, p = task
+    from mpmath import mp
+    import math
+    acc = Acc()
+    try:
+        mp.prec = p
+        base = [t for t in D(3, 3)] + [mk(0, 1, 40), mk(1, 3, 30), mk(0, (1 << 20) + 1, -10)]
+        for t in base:
+            if t == fzero:
+                continue
+            x = mp.make_mpf(t)
+            xq = Fraction(*Q.to_q(t))
+            fx = float(xq) if abs(t[2] + t[3]) < 900 else None
+            partners = []
+            if fx is not None and fx != 0 and not math.isinf(fx):
+                for k in (1, 3, 1 << 12):
+                    for sgn in (1, -1):
+                        f2 = fx * (1 + sgn * k * 2.0 ** -52)
+                        partners.append(('float', f2, Fraction(f2)))
+                partners.append(('float', fx, Fraction(fx)))
+            if t[2] >= 0 and t[2] < 200:
+                n = int(xq)
+                for d in (1, -1, (1 << 20) + 1):
+                    partners.append(('int', n * (1 << 70) + d, Fraction(n * (1 << 70) + d)))
+                xbig = mp.make_mpf((t[0], t[1], t[2] + 70, t[3]))
+            else:
+                xbig = None
+            for kind, y, yq in partners:
+                a, aq = (xbig, xq * (1 << 70)) if (kind == 'int' and xbig is not None) else (x, xq)
+                ce = (aq > yq) - (aq < yq)
+                for opn, f in OPS:
+                    for order, g, c in (('mpf-' + kind, lambda: f(a, y), ce), (kind + '-mpf', lambda: f(y, a), -ce)):
+                        acc.evals += 1; acc.nontrivial += 1
+                        try:
+                            got = g()
+                        except Exception as e:
+                            got = repr(e)
+                        w = expect(opn, c)
+                        if got is not w:
+                            acc.violation(['cmplow', order, opn, t, repr(y), p], '%s at prec %d: %s %s %r gives %r, exact order says %r' % (order, p, t, opn, y, got, w), kind='cmp', combo=order, lowprec=True)
+        acc.sample(['cmplow', 'mpf-float', 'lt', base[5], p])
+    finally:
+        mp.prec = 53
     return acc
 
 
